@@ -30,7 +30,7 @@ LEVEL_NOTE = "Finite and fully enumerated for the class set importable from ofxt
 DESIGN_REF = "DESIGN.md §3 C13"
 EXHAUSTIVE = {"quick": "all classes x all declared children x all member-type pairs x all exclusivity groups",
               "thorough": "same, with 5 differently seeded minimal/random base instances per probe"}
-MIN_COUNTERS = {"quick": {"classes": 380, "children_probed": 2000, "groups_probed": 80, "member_pairs_probed": 300, "lookup_probed": 380},
+MIN_COUNTERS = {"quick": {"classes_compared_with_spec_table": 380, "classes": 380, "children_probed": 2000, "groups_probed": 80, "member_pairs_probed": 300, "lookup_probed": 380},
                 "thorough": {"classes": 380, "children_probed": 10000, "groups_probed": 400, "member_pairs_probed": 1500, "lookup_probed": 380}}
 
 
@@ -103,6 +103,34 @@ def probe_child(ctx, name, cls, attr, t, seedstr, profile):
     d = modelwalk.diff(modelwalk.snap(inst), modelwalk.snap(back))
     if d:
         ctx.violation(f"child-lost-on-read/{key}", f"{name} with {attr}: {d}", case)
+        return
+    if kind in ("listagg", "listelem") and not ref_decl.overrides_validate_args(cls):
+        # (classes with a validation rule of their own - ACCTINFO allows one *ACCTINFO of each kind - are left out)
+        # a repeated child may occur any number of times: the same document with this child three times over (adjacent copies)
+        import copy
+        elem3 = copy.deepcopy(elem)
+        kids = list(elem3)
+        first = next(i for i, c in enumerate(kids) if c.tag == tag)
+        for _ in range(2):
+            elem3.insert(first, copy.deepcopy(kids[first]))
+        ctx.ev()
+        ctx.count("repeated_children_tripled")
+        try:
+            back3 = Aggregate.from_etree(elem3)
+        except Exception as e:
+            ctx.violation(f"repeated-child-refused-when-repeated/{key}", f"{name}: three <{tag}> children instead of one: from_etree raised {e!r}", case)
+            return
+        n3 = len(list(list.__iter__(back3)))
+        if n3 != len(list(list.__iter__(back))) + 2:
+            ctx.violation(f"repeated-child-lost-when-repeated/{key}", f"{name}: three <{tag}> children read as {n3} members (one copy gave {len(list(list.__iter__(back)))})", case)
+            return
+        # and built by keyword/positional construction with the members the reader produced, then written again
+        try:
+            again = Aggregate.from_etree(back3.to_etree())
+            if modelwalk.diff(modelwalk.snap(back3), modelwalk.snap(again)):
+                ctx.violation(f"repeated-child-lost-when-repeated/{key}", f"{name}: model with three {attr} members changes on write/read", case)
+        except Exception as e:
+            ctx.violation(f"repeated-child-refused-when-repeated/{key}", f"{name} with three {attr} members: write/read raised {e!r}", case)
 
 
 def probe_member_pairs(ctx, name, cls, seedstr):
@@ -255,6 +283,53 @@ def probe_lookup(ctx, name, cls, exported, defined):
         ctx.violation(f"spec-order/{name}", f"list({name}.spec) = {list(cls.spec)[:8]}... differs from declared order {list(ref_decl.decl(cls))[:8]}...", case)
 
 
+def probe_spec_table(ctx, classes):
+    """Children the frozen specification table lists for a class but the live class no longer declares (a declaration that fell out
+    of the class body - a stray comma makes it a tuple): witnessed by execution - a document carrying that child is read and the
+    child is not in the model."""
+    import warnings
+    import xml.etree.ElementTree as ET
+    from ofxtools.models.base import Aggregate
+    from vf.gen import values
+    from vf.oracles import spec
+
+    rng = random.Random("C13/spec")
+    n = 0
+    for name, c in spec.table().items():
+        cls = classes.get(name)
+        if cls is None:
+            ctx.ev()
+            ctx.violation(f"class-of-specification-table-missing/{name}", f"ofxtools.models.{name} no longer exists", {"op": "spec", "cls": name})
+            continue
+        live = ref_decl.decl(cls)
+        n += 1
+        for k, e in c["children"]:
+            if k in live or e["kind"] == "unsupported":
+                continue
+            ctx.ev()
+            case = {"op": "spec", "cls": name, "attr": k}
+            try:
+                inst = instances.build(cls, random.Random(f"C13/spec/{name}"), "min", opts=opts())
+                elem = inst.to_etree()
+                if e["kind"] in ("sub", "listagg"):
+                    child = instances.build(classes[e["cls"]], random.Random(f"C13/spec/{name}/{k}"), "min", opts=opts()).to_etree()
+                else:
+                    g = spec.gold(name, k)
+                    child = ET.Element(k.upper())
+                    child.text = g.unconvert(values.gen_value(rng, g))
+                elem.append(child)
+                with warnings.catch_warnings(record=True) as w:
+                    warnings.simplefilter("always")
+                    back = Aggregate.from_etree(elem)
+                held = back.__dict__.get(k) is not None or any(type(m).__name__.lower() == k for m in list.__iter__(back))
+                outcome = f"read gave {len(w)} warning(s) {[str(x.message)[:80] for x in w][:1]}, child in model: {held}"
+            except Exception as ex:
+                held, outcome = False, f"raised {ex!r}"
+            if not held:
+                ctx.violation(f"declared-child-unreachable/{name}.{k}", f"the specification table lists {k} ({e['kind']}) as a child of {name}; the class does not declare it: {outcome}", case)
+    ctx.count("classes_compared_with_spec_table", n)
+
+
 def run_shard(ctx):
     classes = ref_decl.all_classes()
     defined = ref_decl.defined_classes()
@@ -268,6 +343,8 @@ def run_shard(ctx):
             ctx.ev()
             if classes.get(nm) is not c:
                 ctx.violation(f"class-not-found-by-tag/{nm}", f"{c.__module__}.{nm} is defined but ofxtools.models.{nm} is {classes.get(nm)!r}", {"op": "lookup", "cls": nm})
+    if ctx.shard == 1 % ctx.nshards:
+        probe_spec_table(ctx, classes)
     for ci, (name, cls) in enumerate(classes.items()):
         if ci % ctx.nshards != ctx.shard:
             continue
@@ -295,6 +372,9 @@ def replay(ctx, case):
     if cls is None:
         ctx.ev()
         ctx.violation(f"class-not-found-by-tag/{name}", "class not exported", case)
+        return
+    if op == "spec":
+        probe_spec_table(ctx, classes)
         return
     if op == "child":
         probe_child(ctx, name, cls, case["attr"], ref_decl.decl(cls)[case["attr"]], case["seedstr"], case["profile"])
